@@ -2,14 +2,14 @@ claim("C01", "SSA dominance facts (must-pass-through) + error-flow analysis + fi
       "Decides: every layout-trusting call and every success return of both entry points is dominated by a successful "
       "VerifyLayoutSignatures(env, keys) on the unmodified parameters; the guard's shape (non-empty key set, all keys, errors fail); "
       "the enforced Layout derives from GetPayload() of the verified object; signature is bound to the enforced bytes per wrapper; "
-      "strict decoding; no dropped errors; no write through the caller's layout. Does not decide cryptographic soundness.", "4.1")
+      "strict decoding; no dropped errors (incl. unexported helpers and errors carried around loops); every loop below the guard visits all elements or fails; no write through the caller's layout. Entry-point rules look through unexported helper frames (depth 3). Does not decide cryptographic soundness.", "4.1")
 claim("C05", "SSA def-use wiring + path facts over the compare loop + access-path tables",
       "Decides: only verified links flow through sublayouts/reduce/rules/summary; every link of a step is compared on materials and "
       "products on every path to the loop latch and mismatches fail; summary endpoints are Steps[0].Materials / Steps[len-1].Products / the "
-      "requested name. Does not decide DeepEqual semantics or rule verdicts.", "4.5")
+      "requested name; nothing that receives the verified link map up to and including the agreement check writes through it (effects analysis with the map as owned memory), except the sublayout replacement; the loops are exhaustive. Does not decide DeepEqual semantics or rule verdicts.", "4.5")
 claim("C06", "SSA dominance facts (must-pass-through) + constant/time-layout table + branch polarity evaluation",
       "Decides: every later stage and success return is dominated by a successful expiry check of the verified layout; the check parses a "
-      "constant full-UTC layout, propagates parse errors and fails for an expiry in the past. Does not decide clock behaviour.", "4.6")
+      "constant full-UTC layout, propagates parse errors and fails for an expiry in the past; the expiry check is found by what it does (parses layout.Expires, compares with the clock), and the reference time is time.Now() in the check or a parameter every call site fills with a fresh time.Now(). Does not decide clock behaviour.", "4.6")
 claim("C08", "SSA shape analysis of VerifySublayouts + call-graph identity of the recursive entry point",
       "Decides: every Layout payload in the verified map is passed to the same verification entry point with exactly the parent layout's "
       "key of the counted functionary, the <step>.<8-char keyid> directory and the step name; its error fails; the summary replaces it. "
@@ -17,10 +17,10 @@ claim("C08", "SSA shape analysis of VerifySublayouts + call-graph identity of th
 claim("C09", "SSA dominance facts (ordering) + shape analysis + who-may-call",
       "Decides: inspections run only after all step checks succeeded and success requires successful inspections and inspection rules; "
       "RunInspections runs every inspection's own command in order, fails on start failure and non-zero status; exit-status type agreement; "
-      "materials before / products after the command; os/exec only via RunInspections->InTotoRun->RunCommand. Does not decide artifact recording.", "4.9")
+      "materials before / products after the command; os/exec only via RunInspections->InTotoRun->RunCommand; MATCH guards of the shared rule engine (hash equality before consumption); exhaustive loops. Does not decide artifact recording.", "4.9")
 claim("C14", "typestate over *exec.Cmd in SSA + def-use pairing of streams and keys + error-flow",
       "Decides: the two pipes of one Cmd are never drained sequentially in the waiting goroutine; Wait dominates success returns and follows "
-      "reads; return-value/stdout/stderr derive from Wait/stdout/stderr respectively; empty command refused before indexing; a Start/Run error is returned unless it is an *exec.ExitError (disjunctive branch facts); no blocking drain under a mutex. Does not decide timing "
+      "reads; return-value/stdout/stderr derive from Wait/stdout/stderr respectively; empty command refused before indexing; a Start/Run error is returned unless it is an *exec.ExitError (disjunctive branch facts); no blocking drain under a mutex; no exec.Cmd option (WaitDelay, Cancel, CommandContext) that makes Wait fail for a command that exited. Does not decide timing "
       "or signal exits.", "4.14")
 claim("C02", "SSA guarded-store analysis (dominance facts keyed by value identity) + branch normal form + map-order analysis + error-flow",
       "Decides: a link is stored in the verified map only under a successful VerifySignature with layout.Keys[id] for an id of the current step's "
@@ -33,13 +33,13 @@ claim("C10", "map-order independence analysis (A3) + interprocedural effects/ali
       "no mutable package state. Does not decide determinism of the file system, commands or crypto/x509.", "4.10")
 claim("C16", "global-write analysis over SSA (package-level state, process-global mutators, shared results)",
       "Decides a sufficient structural condition: no package-level variable of in_toto/internal/spiffe is written or written through outside init, no "
-      "process-global mutators are called, dependency globals reached are read-only, no exported function returns package-level memory; sync.Map/Pool/Mutex/Once/atomic operations on package-level variables count as shared state (stronger than the property: a correct pool would be reported too). Does not "
-      "decide races inside the runtime/stdlib or on shared arguments.", "4.16")
+      "process-global mutators are called, dependency globals reached are read-only, no exported function returns package-level memory; sync.Map/Pool/Mutex/Once/atomic operations on package-level variables count as shared state (stronger than the property: a correct pool would be reported too). No exported function writes through its slice/map/pointer parameters (effects analysis), except two reviewed pipeline stages. Does not "
+      "decide races inside the runtime/stdlib.", "4.16")
 claim("C03", "keyword/grammar table agreement + per-arm facts on phi edges + guarded-store analysis in the MATCH helper + error-flow",
       "Decides: parser, interpreter and spec keyword sets agree; the parser's MATCH grammar table (lengths, keyword positions, extracted fields) and the "
       "length-2 rule for generic rules; only DISALLOW/REQUIRE fail; the queue is live and updated on every path; each rule type consumes the right set "
       "(created/deleted/modified defined correctly); MATCH consumes only under pattern match, destination existence, hash equality and prefix membership. "
-      "Does NOT decide agreement of the interpreter with the spec on all rule programs (set algebra, glob semantics).", "4.3")
+      "Every item / round / rule / artifact loop is left only by exhaustion or failure (no rule is skipped). Does NOT decide agreement of the interpreter with the spec on all rule programs (set algebra, glob semantics).", "4.3")
 claim("C04", "sibling agreement of Sign/VerifySignature over SSA def-use + key-type table agreement + constant tables",
       "Decides: sign and verify use the same bytes and the same signer/verifier constructor per wrapper; signatures accumulate in both wrappers; hex "
       "codec pair and key id; key-type tables agree with matching constructors; wrapper detection and payload-type constant. Does not decide cryptographic soundness.", "4.4")
@@ -54,16 +54,16 @@ claim("C11", "type-level JSON schema extraction compared with a frozen wire-form
 claim("C12", "sibling cross-check of the two loaders + nil-dereference facts + static reachability of the validator family + constant tables",
       "Decides: both loaders nil-test raw parts, share the strict decoder and fail on its error; required-field check uses the decoded type and refuses a member only when its key is absent (null written by the writers loads back); unknown markers "
       "fail; writer/reader key agreement; every validator (incl. inspections) is wired from ValidateMetablock; format constants; constructors initialise the "
-      "signature list. Does not decide round-trip equality or exactness of the validator.", "4.12")
+      "signature list; validator loops are exhaustive and an error kept across iterations is not overwritten by a later element. Does not decide round-trip equality or exactness of the validator.", "4.12")
 claim("C17", "guarded-store facts + reachability + return-shape analysis of the matcher",
       "Decides only: a malformed pattern can not add to Filter's result; rule verification reaches no other matcher; error returns carry matched=false and "
-      "only the bad-pattern sentinel; whole-name exhaustion and trailing-star shape; no '/' special-casing; scanner/matcher escape agreement; the star scan retries every byte offset and the name is not sliced otherwise. The glob grammar itself is NOT decided.", "4.17")
+      "only the bad-pattern sentinel; whole-name exhaustion and trailing-star shape; no '/' special-casing; scanner/matcher escape agreement; the star scan retries every byte offset and the name is not sliced otherwise; matchChunk reads the name only where it is known non-empty (flag-implied branch facts). The glob grammar itself is NOT decided.", "4.17")
 claim("C18", "write-set / field-coverage analysis + constant regexp tree comparison + def-use single-pass check + A3 + A4",
-      "Decides: exactly the six fields are rewritten, each from itself over the whole list; pairs are (\"{\"+name+\"}\", value); name pattern equals "
+      "Decides: exactly the six fields are rewritten, each from itself, once, for every element of the whole list (in place on a copy, or by value into a fresh list of the same length); pairs are (\"{\"+name+\"}\", value); name pattern equals "
       "^[a-zA-Z0-9_-]+$ with failing mismatch; one Replacer, one Replace per original string; empty dictionary returns the input; order independence; "
       "no write through the argument's memory. Does not decide strings.Replacer's algorithm.", "4.18")
 claim("C13", "constant table + SSA provenance of hashed bytes / digests + dominance facts over the walk callback + def-use of the three-way difference",
-      "Decides: hash algorithm table; RecordArtifact hashes the bytes of the named file, rewrites only under lineNormalization and only with the CRLF->LF, CR->LF replacement pair (directly or in one helper), fails on unknown algorithms, "
+      "Decides: hash algorithm table; RecordArtifact hashes the bytes of the named file (os.ReadFile or io.ReadAll of os.Open), rewrites only under lineNormalization and only with the CRLF->LF, CR->LF replacement pair (directly or in one helper), fails on unknown algorithms, "
       "stores each digest under the name whose constructor computed it; walk discipline (errors returned, exclusion before hashing, dir symlinks only on request, "
       "cycle and collision errors, ToSlash, fresh visited set); snapshot discipline of run/record start/stop; InTotoMatchProducts' three results. Does NOT decide "
       "completeness of the walk, symlink semantics on real trees or digest values.", "4.13")
@@ -74,7 +74,7 @@ claim("C15", "panic-site obligation analysis over SSA: explicit panics, unchecke
       "and the pipe-deadlock clause.", "4.15")
 claim("C19", "map-literal / type-switch table extraction + provenance of key halves + parser-set check",
       "Decides: key-id preimage members and their sources (no private material), sha256+hex; per parsed type the right public/private bytes and key-type constant; "
-      "default scheme table; private half only under the length guard from private bytes with the right PEM type, KeyVal rebuilt; exactly five accepted encodings, nil "
+      "default scheme table; private half only under the length guard from private bytes with the right PEM type, KeyVal rebuilt; exactly five accepted encodings tried on the decoded bytes whatever the PEM label says, nil "
       "PEM block refused; SPIFFE conversion shape. Does not decide id distinctness or sign/verify capability.", "4.19")
 claim("C20", "cobra command-literal and flag-registration extraction + def-use of package variables into library parameters + error-flow + constant format agreement",
       "Decides: commands attached and RunE; every library error returned; Execute => non-zero exit; match-products exit condition; flag->variable table, required flags, "
